@@ -416,13 +416,15 @@ _HDR = '#include <stdio.h>\n#define P(k, id, v) printf("%s %s = %d\\n", k, id, (
 _FILL = "int fill_%d(int x) { return x + %d; }\n"
 _MAIN_TAIL = 'P("end", "main", 0); return 0; }\n'
 PINNED = {
-    # a hidden global defined in one partial-link group and used from outside it
+    # a hidden global defined and used in one partial-link group and also used from outside it
     "hidden": dict(cm="pic", units=[
         ("c", _HDR + 'extern int c_get(void);\nextern int fill_1(int);\nint main() { P("call", "m:c_get", c_get()); P("call", "m:f", fill_1(1)); '
                      'P("data", "m:1", 1); P("data", "m:2", 2); P("data", "m:3", 3); ' + _MAIN_TAIL),
         ("c", '__attribute__((visibility("hidden"))) int hf(int x) { return x + 40; }\n__attribute__((visibility("hidden"))) int hd = 2;\n'),
         ("c", 'extern __attribute__((visibility("hidden"))) int hf(int);\nextern __attribute__((visibility("hidden"))) int hd;\nint c_get(void) { return hf(hd); }\n'),
-        ("c", _FILL % (1, 1))], parts=[[1, 3], [0], [2]], nest=[], kinds=["pie"]),
+        # a second user inside the group: wild -r makes the hidden symbol local once a reference to it is resolved inside
+        ("c", 'extern __attribute__((visibility("hidden"))) int hf(int);\nint fill_1(int x) { return hf(x) - 39; }\n')],
+        parts=[[1, 3], [0], [2]], nest=[], kinds=["pie"]),
     # __start_/__stop_ references
     "start-stop": dict(cm="pic", units=[
         ("c", _HDR + 'extern int count(void);\nextern int fill_1(int);\nint main() { P("sect", "m:count", count()); P("call", "m:f", fill_1(1)); '
